@@ -530,7 +530,8 @@ Definition eLL := leq eL.
 Definition eP (p q : Z * Z) := Z.eqb (fst p) (fst q) && Z.eqb (snd p) (snd q).
 Definition ePL := leq eP.
 Definition eO (a b : option Z) := match a, b with Some x, Some y => Z.eqb x y | None, None => true | _, _ => false end.
-Definition eOpt {A} (e : A -> A -> bool) (m : A) (o : option A) := match o with None => true | Some v => e m v end.
+(* the model side is a thunk: vm_compute is call by value and a skipped (None) answer must not be computed *)
+Definition eOpt {A} (e : A -> A -> bool) (m : unit -> A) (o : option A) := match o with None => true | Some v => e (m tt) v end.
 Definition nats (l : list nat) := map Z.of_nat l.
 Definition pair_leb (p q : Z * Z) := (fst p <? fst q) || ((fst p =? fst q) && (snd p <=? snd q)).
 Definition b2z (b : bool) := if b then 1 else 0.
@@ -552,8 +553,8 @@ UCOMP = [
     ("prefixes", "list (list Z)", zll, "prefixes l", "eLL"),
     ("suffixes", "list (list Z)", zll, "suffixes l", "eLL"),
     ("sublists", "list (list Z)", zll, "sublists l", "eLL"),
-    ("powerset", "option (list (list Z))", opt(zll), "powerset l", "eOpt eLL"),
-    ("permutations", "option (list (list Z))", opt(zll), "permutations l", "eOpt eLL"),
+    ("powerset", "option (list (list Z))", opt(zll), "fun _ => powerset l", "eOpt eLL"),
+    ("permutations", "option (list (list Z))", opt(zll), "fun _ => permutations l", "eOpt eLL"),
     ("group", "list (list Z)", zll, "group_consecutive l", "eLL"),
     ("counts", "list (Z * Z)", zpairs, "counts l", "ePL"),
     ("grade_up", "list Z", zl, "nats (grade_up l)", "eL"),
@@ -645,7 +646,7 @@ def correspondence(env, U, UR, B, BR, T, TR, M, MR):
     pre = PRE + """Record bcase := B { ba : list Z; bb : list Z; bz : list (Z * Z); bi : list Z; bu : option (list (list Z)); bc : list (Z * Z) }.
 Definition comps (c : bcase) : list bool := let a := ba c in let b := bb c in
   [ePL (zip a b) (bz c); eL (interleave a b) (bi c);
-   eOpt eLL [fst (uninterleave (interleave a b)); snd (uninterleave (interleave a b))] (bu c);
+   eOpt eLL (fun _ => [fst (uninterleave (interleave a b)); snd (uninterleave (interleave a b))]) (bu c);
    ePL (cart_diag a b) (bc c);
    ePL (isort pair_leb (cart a b)) (isort pair_leb (bc c))].
 Definition ok (c : bcase) : bool := forallb (fun b => b) (comps c).
